@@ -16,7 +16,7 @@ JOBS = [
          wip=False, **SC9),
     # exact-cost contract of the chunk-splitting loop: MiniSat does not finish in 10 min, CaDiCaL needs ~5 min
     dict(name='c09_snappy_emit_copy', prop='C09', entry='h_c09_emit_copy', enforce='snappy_emit_copy',
-         min_loop_obligations=1, backend='cadical', tier='thorough', timeout=1500, est_s=400, wip=True,
+         min_loop_obligations=1, backend='cadical', tier='thorough', timeout=1500, est_s=400, wip=False,
          replayer=dict(kind='direct', harness='replay/direct/snappy_emit.c', sources=[], vars={'offset': 'offset', 'len': 'len'}),
          **SC9),
     dict(name='c09_snappy_bound', prop='C09', entry='h_c09_bound', enforce='carquet_snappy_compress_bound',
@@ -29,7 +29,7 @@ JOBS = [
     dict(name='c09_snappy_compress_' + nm, props=['C09', 'C10'], entry='h_c09_compress', enforce='carquet_snappy_compress',
          replace=['carquet_snappy_compress_bound', 'snappy_write_varint', 'snappy_emit_literal', 'snappy_emit_copy'],
          select=sel, min_loop_obligations=mlo, est_s=600, timeout=3000, mem_gb=mem, tier='thorough',
-         backend=['cadical', 'sat'], cbmc_flags=['--arrays-uf-always'], wip=True,
+         backend=['cadical', 'sat'], cbmc_flags=['--arrays-uf-always'], wip=False,
          replayer=dict(kind='fuzz', harness='replay/fz/snappy_compress.c', sources=['src/compression/snappy.c'], max_len=64, secs=20),
          defines=['CQV_OWN_MEM=1'], extra_sources=[], trusted=[OWNMEM], **SC9)
     for nm, sel, mlo, mem in [
@@ -68,7 +68,7 @@ JOBS += [
     dict(name='c10_snappy_emit_literal', prop='C10', entry='h_c10_emit_literal', loop_contracts=False,
          functions=['snappy_emit_literal'], trusted=[SPEC], wip=False, **SC10),
     dict(name='c10_snappy_emit_copy', prop='C10', entry='h_c10_emit_copy', enforce='snappy_emit_copy',
-         min_loop_obligations=1, trusted=[SPEC], backend='cadical', tier='thorough', timeout=1500, est_s=400, wip=True,
+         min_loop_obligations=1, trusted=[SPEC], backend='cadical', tier='thorough', timeout=1500, est_s=400, wip=False,
          replayer=dict(kind='direct', harness='replay/direct/snappy_emit.c', sources=[], vars={'offset': 'offset', 'len': 'len'}),
          **SC10),
 ]
